@@ -36,7 +36,11 @@ func workItems(tier string) []workItem {
 			w = append(w, workItem{"a", ch, k, aSlices})
 		}
 	}
-	for _, ch := range []string{"embedded", "ledger", "empty"} {
+	bChains := []string{"embedded", "ledger", "empty"}
+	if tier == "thorough" {
+		bChains = append([]string{"long"}, bChains...)
+	}
+	for _, ch := range bChains {
 		w = append(w, workItem{"b", ch, 0, 1})
 	}
 	for k := 0; k < cSlices; k++ {
@@ -67,13 +71,35 @@ func init() {
 			"the APIs are constructed over an adapter implementing zenon.Zenon from the harness node (Chain, Consensus); PillarApi in 'testing' mode (consensus cache refreshed synchronously)",
 			"part (c) drives rpc/server in-process: ServeHTTP with httptest recorders and ServeCodec over net.Pipe, no sockets, no websocket / IPC transports",
 		},
-		Rule: "exhaustive product of the stated boundary values per paged method and chain; grammar-enumerated request set per transport; every stored block and momentum for the JSON round trip",
+		Rule: "exhaustive enumeration, no sampling: (a) per chain and paged method the full product pageIndex {0,1,2,last,last+1,2^16,2^22,2^31,2^32-1, first index whose offset needs more than 32 bits and its predecessor} x pageSize {0,1,2,3,limit,limit+1,2^32-1} (heights {0,1,2,last,last+1,2^63,2^64-1} x counts {...,2^63,2^64-1}) plus every page of every legal size for the concatenation property; (b) every stored block and momentum and 7 synthetic variants per block; (c) a fixed grammar of requests (valid, wrong type per parameter position, missing/extra/null params, huge numbers, nesting up to 10^5, 5 MiB, batches, invalid UTF-8, unknown methods, every truncation of 3 valid requests) over two transports. A case is non-trivial unless its expected answer is trivially empty (empty list / size 0 / empty body); distinct = distinct inputs.",
 		Run:  run,
 		Finish: func(tier string, m *xs.Result, ev *xs.Evidence) {
 			ev.Coverage["evaluations"] = m.Counters["a_evaluations"] + m.Counters["b_roundtrips"] + m.Counters["c_requests"]
-			nontrivial := len(m.Sets["paging_cases"]) + len(m.Sets["c_outcomes"]) + len(m.Sets["b_kinds"])
-			ev.Coverage["distinct_nontrivial"] = nontrivial
-			ev.Coverage["explanation"] = "distinct_nontrivial = distinct (method, outcome class) pairs of part (a) + distinct (request class, transport, outcome) triples of part (c) + distinct block/momentum shapes of part (b)"
+			var samples []interface{}
+			for _, part := range []string{"ap", "aw", "ao", "b", "c"} {
+				var ks []string
+				for k := range m.Sets["samples_"+part] {
+					ks = append(ks, k)
+				}
+				sort.Strings(ks)
+				for i, k := range ks {
+					if i >= 2 || (i >= 1 && part[0] == 'a') {
+						break
+					}
+					var v interface{}
+					if json.Unmarshal([]byte(k), &v) == nil {
+						samples = append(samples, v)
+					}
+				}
+				delete(ev.Coverage, "distinct_samples_"+part)
+			}
+			if len(samples) > 0 {
+				ev.Coverage["samples"] = samples
+			}
+			delete(ev.Coverage, "distinct_nontrivial")
+			ev.Coverage["distinct_nontrivial"] = len(m.Sets["nontrivial"])
+			ev.Coverage["distinct_outcome_classes"] = len(m.Sets["paging_cases"]) + len(m.Sets["c_outcomes"]) + len(m.Sets["b_kinds"])
+			ev.Coverage["explanation"] = "evaluations = api calls of part (a) + JSON round trips of part (b) + (request, transport) executions of part (c). distinct_nontrivial counts distinct cases: (a) (chain, method, fixed args, a, b) cells except those on an empty list or with size 0 whose answer is trivially empty, plus each point query; (b) each stored block / momentum and each synthetic variant of a block; (c) each (request bytes, transport) pair that owes an answer. distinct_outcome_classes = distinct (method, outcome class) + (request family, transport, outcome) + block/momentum shapes."
 			if os.Getenv("C18_DUMP") != "" {
 				for name, set := range m.Sets {
 					var ks []string
@@ -104,16 +130,33 @@ func init() {
 	})
 }
 
+// sampleOnce keeps the first two samples of each part per shard (the driver's own sample list keeps the first four
+// overall, which would all come from one part).
+func sampleOnce(r *xs.Result, part string, v interface{}) {
+	if len(r.Sets["samples_"+part]) >= 2 {
+		return
+	}
+	b, err := json.Marshal(v)
+	if err == nil {
+		r.Add("samples_"+part, string(b))
+	}
+}
+
 type replaySpec struct {
 	Part   string          `json:"part"`
+	Tier   string          `json:"tier,omitempty"`
 	Cell   *cellSpec       `json:"cell,omitempty"`
 	Concat *cellSpec       `json:"concat,omitempty"`
 	B      *rtSpec         `json:"b,omitempty"`
 	C      json.RawMessage `json:"c,omitempty"`
 }
 
+// curTier is the tier of the chains this worker builds (recorded in replay objects).
+var curTier string
+
 func run(c *xs.Ctx, r *xs.Result) {
 	setGlobals()
+	curTier = c.Tier
 	if c.Replay != nil {
 		replay(c, r)
 		return
@@ -170,6 +213,10 @@ func runA(c *xs.Ctx, r *xs.Result, it workItem) {
 			return
 		}
 		checkInstance(c, r, it.Chain, in)
+		if abortA {
+			r.Note("part (a) chain %s: a call did not return; remaining instances of this work item skipped", it.Chain)
+			return
+		}
 	}
 	if it.K == 0 {
 		checkPoints(c, r, ci)
@@ -181,6 +228,10 @@ func replay(c *xs.Ctx, r *xs.Result) {
 	var rep replaySpec
 	if err := json.Unmarshal(c.Replay, &rep); err != nil {
 		panic(err)
+	}
+	if rep.Tier == "quick" || rep.Tier == "thorough" {
+		c.Tier = rep.Tier // the chains differ between tiers
+		curTier = rep.Tier
 	}
 	switch rep.Part {
 	case "a":
